@@ -506,6 +506,23 @@ type Plan struct {
 	// After runs after the rapid-driven checks (enumerators and other
 	// custom engines); it reports through Count/CountRaw and Fail.
 	After func(t *testing.T)
+	// Inflight: the case about to be evaluated is written to a file next to
+	// the statistics file first, so that when the library brings the whole
+	// test process down (a fatal runtime error cannot be recovered: stack
+	// overflow, concurrent map access, a panic on another goroutine) the
+	// driver finds the case that did it and reports it with a replay file.
+	Inflight bool
+}
+
+// NoteInflight records the case that is about to run (Plan.Inflight).
+func NoteInflight(prop, check string, c *Case) {
+	cf := Cfg()
+	if cf.Out == "" {
+		return
+	}
+	rf := ReplayFile{Property: prop, Check: check, Case: *c, InputQ: fmt.Sprintf("%q", c.In), Seed: cf.Seed, Shard: cf.Shard, Tier: cf.Tier}
+	j, _ := json.Marshal(rf)
+	os.WriteFile(filepath.Join(filepath.Dir(cf.Out), fmt.Sprintf("inflight-shard-%d.json", cf.Shard)), j, 0o644)
 }
 
 // safeProp runs a property function, turning a panic in the harness or in the
@@ -606,6 +623,9 @@ func Run(t *testing.T, p Plan) {
 				if stopped {
 					return
 				}
+				if p.Inflight {
+					NoteInflight(p.Prop, ck.Name, &cse)
+				}
 				res := safeProp(ck.Prop, cse)
 				Count(ck.Name, &cse, res.Nontrivial, res.Labels...)
 				if res.Err != nil {
@@ -634,6 +654,9 @@ func Run(t *testing.T, p Plan) {
 	mu.Lock()
 	stats.Complete = true
 	mu.Unlock()
+	if p.Inflight && c.Out != "" {
+		os.Remove(filepath.Join(filepath.Dir(c.Out), fmt.Sprintf("inflight-shard-%d.json", c.Shard)))
+	}
 }
 
 // Fail records a violation found by a custom engine (enumerator): it writes
